@@ -54,6 +54,26 @@ HDist(a, b, mod) == IF mod > 0 THEN MinOf((a - b) % mod, (b - a) % mod) ELSE Abs
 WithinLayers(p, L, hl, vl, mod) ==
   \E q \in L : HDist(p[1], q[1], mod) <= hl /\ HDist(p[2], q[2], mod) <= hl /\ Abs(p[3] - q[3]) <= vl
 
+\* Long segments parallel to a grid axis (thousands of voxels): the segment stays inside one row /
+\* column / layer on the other two axes, so C06 leaves exactly one answer - the run of voxels from
+\* the start voxel <<0,0,0>> to the end voxel n steps along the axis (n of either sign).
+AxisUnit(axis, i) == IF axis = 1 THEN <<i, 0, 0>> ELSE IF axis = 2 THEN <<0, i, 0>> ELSE <<0, 0, i>>
+AxisRun(axis, n) == {AxisUnit(axis, i) : i \in MinOf(0, n)..MaxOf(0, n)}
+LineAxisAccept(r, axis, n) == Cardinality(Range(r)) = Len(r) /\ Range(r) = AxisRun(axis, n)
+\* the corridor around such a segment: the layer box of a straight run is a box
+InAxisBox(p, axis, n, fitH, fitV) ==
+  \A i \in 1..3 :
+     LET lay == IF i = 3 THEN fitV ELSE fitH
+         lo == IF i = axis THEN MinOf(0, n) ELSE 0
+         hi == IF i = axis THEN MaxOf(0, n) ELSE 0
+     IN  lo - lay <= p[i] /\ p[i] <= hi + lay
+CorridorAxisAccept(rm, rs, axis, n, fitH, fitV, zeroRadius) ==
+  LET M == Range(rm)  S == Range(rs)  LL == AxisRun(axis, n) IN
+  /\ Cardinality(M) = Len(rm) /\ Cardinality(S) = Len(rs)
+  /\ LL \subseteq M /\ M \subseteq S
+  /\ (zeroRadius => M = LL /\ S = LL)
+  /\ \A p \in S : InAxisBox(p, axis, n, fitH, fitV)
+
 \* The layer fit (FitClearanceAroundExtendedSpatialID): the number of voxels to step away, east-west
 \* (first result) and north-south (second result), until the gap between the voxel and its shifted
 \* copy is at least the clearance.  gaps[n] is the harness-measured gap (WGS84 chord, integer units)
